@@ -66,6 +66,14 @@ pub struct Presentation {
     /// MapAccess / SeqAccess answer None to size_hint (streaming formats) instead of the number of remaining entries
     #[serde(default)]
     pub no_size_hint: bool,
+    /// f64 parts whose value is exactly an f32 arrive through visit_f32 (formats that store the narrowest exact float:
+    /// serde_cbor, MessagePack float32); the widening is exact, so the number must be restored bit for bit
+    #[serde(default)]
+    pub narrow_floats: bool,
+    /// parts with an integral value arrive through visit_i64 / visit_u64 (one-number-kind formats written by other
+    /// producers).  serde's float visitors accept that; an impl may refuse it: Err tolerated, Ok must be right
+    #[serde(default)]
+    pub integers: bool,
 }
 
 #[derive(Clone, Copy, Debug, Serialize, Deserialize, PartialEq, Default)]
@@ -172,7 +180,20 @@ impl<'de> de::Deserializer<'de> for SimDe<'de> {
     type Error = SimError;
     fn deserialize_any<V: Visitor<'de>>(self, v: V) -> Result<V::Value, SimError> {
         match self.node {
-            Node::F64(b) => v.visit_f64(f64::from_bits(*b)),
+            Node::F64(b) => {
+                let x = f64::from_bits(*b);
+                if self.p.integers && x.fract() == 0.0 && x.abs() < 9.0e15 && (x != 0.0 || x.is_sign_positive()) {
+                    if x >= 0.0 { v.visit_u64(x as u64) } else { v.visit_i64(x as i64) }
+                } else if self.p.narrow_floats && (x as f32) as f64 == x && (x != 0.0 || true) {
+                    v.visit_f32(x as f32)
+                } else {
+                    v.visit_f64(x)
+                }
+            }
+            Node::F32(b) if self.p.integers && f32::from_bits(*b).fract() == 0.0 && f32::from_bits(*b).abs() < 1.6e7 && (f32::from_bits(*b) != 0.0 || f32::from_bits(*b).is_sign_positive()) => {
+                let x = f32::from_bits(*b);
+                if x >= 0.0 { v.visit_u64(x as u64) } else { v.visit_i64(x as i64) }
+            }
             Node::F32(b) => {
                 if self.p.f32_as_f64 {
                     v.visit_f64(f32::from_bits(*b) as f64)
